@@ -199,6 +199,8 @@ def circuit_cases(tier):
             for i, j in itertools.combinations(range(n), 2):
                 yield {'api': api, 'n': n, 'fault': 'dup-id', 'i': i, 'j': j}
         for g1 in range(n + 1):
+            for j in range(n):
+                yield {'api': 'ctor', 'n': n, 'fault': 'ground-dup-id', 'ground': g1, 'j': j}
             yield {'api': 'ctor', 'n': n, 'fault': None, 'ground': g1}
             yield {'api': 'ctor', 'n': n, 'fault': 'dangling-ground', 'ground': g1}
             for g2 in range(g1, n + 1):
@@ -245,7 +247,8 @@ def check_circuit_fault(case, r: R):
             comps[case['pos']] = ccp.periodic_voltage_source(id=entries[case['pos']]['id'], nodes=entries[case['pos']]['nodes'], wavetype='sinc', V=1.0, w=10.0)
         if 'ground' in case:
             node = 'nowhere' if fault == 'dangling-ground' else '0'
-            comps.insert(case['ground'], ccp.ground(nodes=(node,)))
+            gid = entries[case['j']]['id'] if fault == 'ground-dup-id' else 'gnd'
+            comps.insert(case['ground'], ccp.ground(id=gid, nodes=(node,)))
         if fault == 'second-ground':
             comps.insert(case['ground2'] + 1, ccp.ground(id='gnd2', nodes=('1',)))
         return comps
